@@ -40,8 +40,8 @@ func Balloon.Add
 func Balloon.AddBulk
   props C05 C11
   requires len(eventBulkDigest) > 0
-  requires b.historyTree != nil && b.hyperTree != nil
-  modifies everything
+  requires HistLive(b.historyTree) && b.hyperTree != nil
+  modifies everything, cachePuts
   ensures C05/version-advances: b.version == old(b.version) + uint64(len(eventBulkDigest))
   ensures C05/one-snapshot-per-event: isnil(result_2) ==> len(result_0) == len(eventBulkDigest)
   ensures C05/consecutive-versions: isnil(result_2) ==> forall k int :: 0 <= k && k < len(eventBulkDigest) ==> result_0[k] != nil && result_0[k].Version == old(b.version) + uint64(k) && result_0[k].EventDigest == eventBulkDigest[k]
